@@ -12,7 +12,7 @@ def classify_crash(cr):
 
 SPEC = {
     'id': 'C15',
-    'lean_modules': ['AITB.Props.C15', 'AITB.Props.C15Gen', 'AITB.Props.C15Top', 'AITB.Props.C15Mdp', 'AITB.Props.C15Cex', 'AITB.Props.C15Flat', 'AITB.Props.C15Clean', 'AITB.Props.C15Facts', 'AITB.Props.C15Bp', 'AITB.Props.C15Obj', 'AITB.Props.C15Deleg', 'AITB.Props.C15Q', 'AITB.Props.C15Solve'],
+    'lean_modules': ['AITB.Props.C15', 'AITB.Props.C15Gen', 'AITB.Props.C15Top', 'AITB.Props.C15Mdp', 'AITB.Props.C15Cex', 'AITB.Props.C15Flat', 'AITB.Props.C15Clean', 'AITB.Props.C15Facts', 'AITB.Props.C15Bp', 'AITB.Props.C15Obj', 'AITB.Props.C15Deleg', 'AITB.Props.C15Q', 'AITB.Props.C15Solve', 'AITB.Props.C15Buf'],
     'theorems': [
         'AITB.FLP.weak_duality_sound',
         'AITB.FLP.optimalPair_sound',
@@ -64,6 +64,7 @@ SPEC = {
         'AITB.FLP.flpGen_clean',
         'AITB.FLP.mdpGen_clean',
         'AITB.FLP.gen_facts_hold',
+        'AITB.FLP.helper_facts_hold',
         'AITB.FLP.bpModel_is_expectation',
         'AITB.FLP.bpModel_WF',
         'AITB.FLP.mdpLP_equiv_bellman_bp',
@@ -85,6 +86,17 @@ SPEC = {
         'AITB.FLP.lpSolve_extracted_point_is_optimal',
         'AITB.FLP.pointSat_zero_sound',
         'AITB.FLP.accepted_point_certifies_bellman',
+        'AITB.FLP.mdp_verdict_sound',
+        'AITB.FLP.shiftLoop_spec',
+        'AITB.FLP.mdp_crossSumGroup',
+        'AITB.FLP.flp_crossSumGroup',
+        'AITB.FLP.flp_crossSumGroup_run',
+        'AITB.FLP.clearSet_inv',
+        'AITB.FLP.mdp_makeResult',
+        'AITB.FLP.flp_makeResult',
+        'AITB.FLP.genLoop_spaced',
+        'AITB.FLP.flpFinals_spaced',
+        'AITB.FLP.flp_makeResult_run',
     ],
     'harness': 'harness/c15.cpp',
     # the calls LpSolveWrapper.cpp makes into lp_solve are recorded at link time (the library is not modified)
